@@ -3,7 +3,18 @@
    U n lambda mu cC c1 cMu cSigma dSigma muEff counter sigma mean[n] C[n*n] pc[n] ps[n] B[n*n] ws[mu] (fit x[n] z[n])*lambda
        -> U sigma' mean'[n] C'[n*n] pc'[n] ps'[n] bestfit bestpoint[n]
    E active v0 nanc anc[nanc] (unp pen)*k   -> E (val anc[nanc])*k        (state after every prefix of the history)
-   P n lo hi penalty c x[n]                 -> P unp pen                  (objective sum (x_i-c)^2 on the box [lo,hi]^n) *)
+   P n lo hi penalty c x[n]                 -> P unp pen                  (objective sum (x_i-c)^2 on the box [lo,hi]^n)
+   S n lambda mu cC L[n*n] (fit x[n] step[n] sigma_i)*lambda
+       -> S sigma' mean'[n] L'[n*n]   |  S EXC          (cmsa_update; None = the Cholesky update throws)
+   C n cp d ptarget cc ccov cu pthresh active nanc anc[nanc] pen L[n*n] pc[n] step[n] z[n] sigma psucc
+       -> C L'[n*n] pc'[n] sigma' psucc'   |  C EXC     (ecma_chrom_step)
+   V n lambda mu cC c1 cMu cSigma dSigma muEff counter sigma mean[n] D[n] vn[n] normv pc[n] ps[n] ws[mu] (fit x[n] y[n])*lambda
+     [z[n]]
+       -> V sigma' mean'[n] D'[n] vn'[n] normv' pc'[n] ps'[n] cov'[n*n] [x[n] y[n]]
+          (vd_update; cov' = vd_cov D' (normv' vn'); x, y = vd_sample on the PRE state with the normal draws z)
+   H n alpha beta L[n*n] v[n]   -> H L'[n*n]  |  H EXC                  (chol_update)
+   Cholesky factors travel as full row-major n*n matrices; the model takes the list of trailing columns
+   (column j = L(j,j), L(j+1,j), .., L(n-1,j)); the driver converts in both directions (zeros above the diagonal). *)
 open C11_model
 
 let rec nat_of_int n = if n <= 0 then O else S (nat_of_int (n - 1))
@@ -18,6 +29,16 @@ let fops : float ops = {
 
 let pf x = if x <> x then "nan" else if x = infinity then "inf" else if x = neg_infinity then "-inf" else Printf.sprintf "%h" x
 let fos s = match s with "inf" -> infinity | "-inf" -> neg_infinity | "nan" | "-nan" -> nan | _ -> float_of_string s
+
+(* full row-major matrix (list of rows) <-> trailing columns *)
+let cols_of_full n (rows : float list list) : float list list =
+  let a = Array.of_list (List.map Array.of_list rows) in
+  List.init n (fun j -> List.init (n - j) (fun i -> a.(j + i).(j)))
+let full_of_cols n (cols : float list list) : float list =
+  let c = Array.of_list (List.map Array.of_list cols) in
+  List.concat (List.init n (fun i -> List.init n (fun j ->
+    if i >= j && j < Array.length c && i - j < Array.length c.(j) then c.(j).(i - j) else 0.0)))
+let sv v = String.concat " " (List.map pf v)
 
 let () =
   let ic = open_in Sys.argv.(1) in
@@ -68,5 +89,64 @@ let () =
         let closest v = List.map (fun xi -> Float.min (Float.max xi lo) hi) v in
         let (u, pz) = penalized_eval fops fobj feasible closest pen x in
         Printf.printf "P %s %s\n" (pf u) (pf pz)
+      | "S" ->
+        let n = int_of_string t.(1) and lambda = int_of_string t.(2) and mu = int_of_string t.(3) in
+        let f i = fos t.(i) in
+        let cC = f 4 in
+        let p = ref 5 in
+        let vecn m = let v = List.init m (fun i -> f (!p + i)) in p := !p + m; v in
+        let matn m = List.init m (fun _ -> vecn m) in
+        let l = cols_of_full n (matn n) in
+        let off = List.init lambda (fun _ -> let fit = f !p in incr p; let x = vecn n in let st = vecn n in
+                                             let si = f !p in incr p; (fit, (x, (st, si)))) in
+        (match cmsa_update fops (nat_of_int n) (nat_of_int mu) cC l off with
+         | Some ((mean, sigma), l') -> Printf.printf "S %s %s %s\n" (pf sigma) (sv mean) (sv (full_of_cols n l'))
+         | None -> print_endline "S EXC")
+      | "C" ->
+        let n = int_of_string t.(1) in
+        let f i = fos t.(i) in
+        let k = { q_cp = f 2; q_d = f 3; q_ptarget = f 4; q_cc = f 5; q_ccov = f 6; q_cu = f 7; q_pthresh = f 8 } in
+        let active = t.(9) = "1" in
+        let na = int_of_string t.(10) in
+        let p = ref 11 in
+        let vecn m = let v = List.init m (fun i -> f (!p + i)) in p := !p + m; v in
+        let matn m = List.init m (fun _ -> vecn m) in
+        let anc = vecn na in
+        let pen = f !p in incr p;
+        let l = cols_of_full n (matn n) in
+        let pc = vecn n in let step = vecn n in let z = vecn n in
+        let sigma = f !p in let psucc = f (!p + 1) in
+        let c = { h_L = l; h_pc = pc; h_step = step; h_z = z; h_sigma = sigma; h_psucc = psucc } in
+        (match ecma_chrom_step fops k active anc pen c with
+         | Some c' -> Printf.printf "C %s %s %s %s\n" (sv (full_of_cols n c'.h_L)) (sv c'.h_pc) (pf c'.h_sigma) (pf c'.h_psucc)
+         | None -> print_endline "C EXC")
+      | "V" ->
+        let n = int_of_string t.(1) and lambda = int_of_string t.(2) and mu = int_of_string t.(3) in
+        let f i = fos t.(i) in
+        let k = { k_cC = f 4; k_c1 = f 5; k_cMu = f 6; k_cSigma = f 7; k_dSigma = f 8; k_muEff = f 9 } in
+        let counter = int_of_string t.(10) and sigma = f 11 in
+        let p = ref 12 in
+        let vecn m = let v = List.init m (fun i -> f (!p + i)) in p := !p + m; v in
+        let mean = vecn n in let d = vecn n in let vn = vecn n in
+        let normv = f !p in incr p;
+        let pc = vecn n in let ps = vecn n in
+        let ws = vecn mu in
+        let off = List.init lambda (fun _ -> let fit = f !p in incr p; let x = vecn n in let y = vecn n in (fit, (x, y))) in
+        let st = { v_mean = mean; v_sigma = sigma; v_D = d; v_vn = vn; v_normv = normv; v_pc = pc; v_ps = ps; v_counter = nat_of_int counter } in
+        let st' = vd_update fops k (nat_of_int n) (nat_of_int mu) ws st off in
+        (* optional: the normal draws z[n] of one createSample call on the PRE state -> vd_sample; always: vd_cov of the POST state *)
+        let smp = if !p + n <= Array.length t then (let z = vecn n in let (x, y) = vd_sample fops mean sigma d vn normv z in sv x ^ " " ^ sv y) else "" in
+        let v' = List.map (fun a -> st'.v_normv *. a) st'.v_vn in
+        Printf.printf "V %s %s %s %s %s %s %s %s %s\n" (pf st'.v_sigma) (sv st'.v_mean) (sv st'.v_D) (sv st'.v_vn) (pf st'.v_normv) (sv st'.v_pc) (sv st'.v_ps)
+          (sv (List.concat (vd_cov fops st'.v_D v'))) smp
+      | "H" ->
+        let n = int_of_string t.(1) in
+        let f i = fos t.(i) in
+        let alpha = f 2 and beta = f 3 in
+        let rows = List.init n (fun i -> List.init n (fun j -> f (4 + i * n + j))) in
+        let v = List.init n (fun i -> f (4 + n * n + i)) in
+        (match chol_update fops alpha beta (cols_of_full n rows) v with
+         | Some c -> Printf.printf "H %s\n" (sv (full_of_cols n c))
+         | None -> print_endline "H EXC")
       | _ -> print_endline "?"
     done with End_of_file -> ())
